@@ -31,7 +31,7 @@ ASSUMPTIONS = [
 
 RELAXED = {"?": 12}
 PAL_BASIC = ["c", "n", "o", "[nH]"]
-PAL_MORE = ["c", "n", "s", "p", "[cH]", "[n+]", "[nH+]"]
+PAL_MORE = ["c", "n", "s", "p", "[cH]", "[n+]", "[nH+]", "[n]", "[p]", "[15n]", "[n:1]"]
 
 SKELETONS = {
     "benzene": "c1ccccc1", "pyridine": "c1ccncc1", "pyrrole": "c1cc[nH]c1", "furan": "c1ccoc1", "thiophene": "c1ccsc1",
@@ -410,10 +410,11 @@ def plan(tier, seed):
         for pi, _ in enumerate(E2.parent_vectors(n)):
             tasks.append(("api/ring-forms-basic", ("forms", n, pi, ra, "basic")))
     nm = 6 if thorough else 5
-    scopes.append({"name": "api/ring-forms-more", "n_max": nm, "r_max": 2, "palette": PAL_MORE})
+    scopes.append({"name": "api/ring-forms-more", "n_max": nm, "r_max": 2, "palette": PAL_MORE,
+                   "desc": "at least one and at most %d atoms outside {c, n} per system" % (3 if thorough else 2)})
     for n in range(3, nm + 1):
         for pi, _ in enumerate(E2.parent_vectors(n)):
-            tasks.append(("api/ring-forms-more", ("forms", n, pi, 2, "more")))
+            tasks.append(("api/ring-forms-more", ("forms", n, pi, 2, "more" if thorough else "more-quick")))
     ns = 7 if thorough else 6
     scopes.append({"name": "api/substituted", "n_max": ns, "r_max": 2,
                    "desc": "written forms with ring atoms from {c,n} and non-ring atoms spelled C (single), =O (on c) - covers "
@@ -497,6 +498,9 @@ def run(task):
     if kind == "forms":
         _, n, pi, rmax, palname = arg
         pal = PAL_BASIC if palname == "basic" else PAL_MORE
+        max_unusual = 3 if palname == "more" else 2
+        if palname == "more-quick":
+            palname = "more"
         par = list(E2.parent_vectors(n))[pi]
         for rings in E2.ring_sets(n, par, rmax, 1):
             okc, adj = all_on_cycle(n, par, rings)
@@ -507,7 +511,9 @@ def run(task):
             for toks in itertools.product(pal, repeat=n):
                 if palname == "more" and all(t in ("c", "n") for t in toks):
                     continue
-                if any((t in ("o", "s", "[nH]", "[cH]", "[nH+]") and deg[i] != 2) for i, t in enumerate(toks)):
+                if palname == "more" and sum(1 for t in toks if t not in ("c", "n")) > max_unusual:
+                    continue        # at most three "unusual" atoms per system keeps the scope tractable
+                if any((t in ("o", "s", "[nH]", "[cH]", "[nH+]", "[n]", "[p]", "[15n]", "[n:1]") and deg[i] != 2) for i, t in enumerate(toks)):
                     continue
                 smi = E2.write(n, par, rings, list(toks), [""] * n)
                 last = (smi, check_smiles(smi, r))
